@@ -367,58 +367,35 @@ theorem C03_witness_fault_after_close_run :
     afterClose ⟨.onTerminated, 0, true⟩ = true ∧ x.fired = true ∧ x.l.c.st = .excepted faultExc ∧ x.l.c.fut = .result ∧
     x.l.c.closed = true := by decide +kernel
 
-/-- **a fault in a pause hook that has nobody left to report to escapes into the stepping task (witness; NOT in the harness's
-enumeration, reproduced on the real code)**: a pause is pending when `run` returns; the pause action performs the step's transition;
-a listener of that transition (`on_process_running`) calls `kill()`, which supersedes — cancels — the pause action that is running;
-`on_pausing` then raises; `CancellableAction.run` finds its future cancelled and re-raises; the exception leaves `Process.step()`:
-the stepping task has crashed with the fault, the process is still RUNNING, and the `finally` cancelled the kill action too while
-`_killing` still points at it. -/
-theorem C03_witness_superseded_pause_action_escapes :
+/-- **a fault in the pause hook of a pause action that was superseded while it ran is logged, and the request that superseded it is
+served (finding F28, repaired by e94edb5; the run that used to crash the stepping task)**: a pause is pending when `run` returns; the
+pause action performs the step's transition; a listener of that transition (`on_process_running`) calls `kill()`, which supersedes —
+cancels — the pause action that is running; `on_pausing` then raises.  Nobody is left to report to: the step goes on, enacts the
+kill, the process ends KILLED with everything agreeing, the requester of the kill is told `True`, `_killing` is cleared and
+`step_until_terminated()` has returned. -/
+theorem C03_superseded_pause_action_fault_is_logged :
     let x := runX procC03 (initX 0 [(.running, 2, .kill)] (some ⟨.onPausing, 0, false⟩)) [.tick, .pause, .tick]
-    x.l.c.pc = .crashed faultExc ∧ x.l.c.st.label = .running ∧ x.l.c.actions.map (·.status) = [.cancelled, .cancelled] ∧
-    x.l.c.killing = some 1 := by decide +kernel
+    x.fired = true ∧ x.l.c.pc = .done ∧ x.l.c.st = .killed ∧ x.l.c.fut = .exc .killedErr ∧ x.l.c.closed = true ∧
+    x.l.c.actions.map (·.status) = [.cancelled, .done] ∧ x.l.c.killing = none ∧ x.l.c.pausing = none := by decide +kernel
 
-/-- **`call_with_super_check` is not exception-safe (witness, reproduced on the real code)**: `play()` → `on_playing` → the
-`on_process_played` listener calls `kill()` → the transition's `on_exit_running` raises BEFORE calling `super()`, which leaves
-`_called` one too high; the transition handles the fault properly (EXCEPTED with it), but `on_playing`, whose base implementation
-completed, then fails its own final assertion: the caller of `play()` gets an `AssertionError`. -/
-theorem C03_witness_super_check_not_exception_safe :
+/-- **a hook that raises before calling `super()` no longer disturbs the hook call around it (finding F29, repaired by 6c8055d;
+the run in which `play()` used to raise an `AssertionError`)**: `play()` → `on_playing` → the `on_process_played` listener calls
+`kill()` → the transition's `on_exit_running` raises before calling `super()`: the transition handles the fault (EXCEPTED with it),
+the call counter is back where it was, and `play()` returns `True`. -/
+theorem C03_failing_hook_leaves_enclosing_hook_alone :
     let x := runX procC03 (initX 0 [(.played, 1, .kill)] (some ⟨.exitRunning, 1, false⟩)) [.tick, .pause, .tick]
-    (stepF procC03 x .play).2 = .raised .assertion ∧ (stepF procC03 x .play).1.l.c.st = .excepted faultExc ∧
-    (stepF procC03 x .play).1.l.c.fut = .exc faultExc := by decide +kernel
+    (stepF procC03 x .play).2 = .bool true ∧ (stepF procC03 x .play).1.l.c.st = .excepted faultExc ∧
+    (stepF procC03 x .play).1.l.c.fut = .exc faultExc ∧ (stepF procC03 x .play).1.called = x.called := by decide +kernel
 
-/-- **`fail()` on a WAITING process whose `on_exit_waiting` raises leaves the stepping task blocked for ever (witness; NOT in the
-harness's enumeration, reproduced on the real code)**: the failed transition is redone with the exit phase bypassed
-(`_transition_failing`), so `Waiting.exit()` — which completes the wait the stepping task is suspended on — never runs: the process is
-EXCEPTED with the fault, closed, its future raising it, but `step_until_terminated()` never returns.  Hence
-`C03_stepper_returns_after_hook_fault` is false. -/
-theorem C03_witness_stepper_blocked_after_exit_hook_fault : ¬ C03_stepper_returns_after_hook_fault := by
-  intro h
-  have hx : (runX procC03 (initX 0 [] (some ⟨.exitWaiting, 0, false⟩)) [.tick, .tick, .tick, .fail (.user 9)]).fired = true ∧
-      (runX procC03 (initX 0 [] (some ⟨.exitWaiting, 0, false⟩)) [.tick, .tick, .tick, .fail (.user 9)]).l.c.st = .excepted faultExc ∧
-      (runX procC03 (initX 0 [] (some ⟨.exitWaiting, 0, false⟩)) [.tick, .tick, .tick, .fail (.user 9)]).l.c.pc = .awaitWaiting 0 ∧
-      (runX procC03 (initX 0 [] (some ⟨.exitWaiting, 0, false⟩)) [.tick, .tick, .tick, .fail (.user 9)]).l.c.wfs[0]? = some .pending := by
-    decide +kernel
-  obtain ⟨h1, h2, h3, h4⟩ := hx
-  have hni : ¬ InternalError (runX procC03 (initX 0 [] (some ⟨.exitWaiting, 0, false⟩)) [.tick, .tick, .tick, .fail (.user 9)]) := by
-    rintro ⟨e, he, hs⟩
-    rw [h2] at hs; cases hs
-    exact faultExc_not_internal he
-  obtain ⟨n, hn⟩ := h procC03 0 [] ⟨.exitWaiting, 0, false⟩ [.tick, .tick, .tick, .fail (.user 9)] rfl rfl h1 hni
-  generalize runX procC03 (initX 0 [] (some ⟨.exitWaiting, 0, false⟩)) [.tick, .tick, .tick, .fail (.user 9)] = x at hn h3 h4
-  -- a wake-up of a task that awaits a pending waiting future changes nothing
-  have hstay : ∀ n, runF procC03 x (List.replicate n .tick) = x := by
-    intro n
-    induction n with
-    | zero => rfl
-    | succ n ih =>
-      have h1 : (stepF procC03 x .tick).1 = x := by
-        show tickStepperF _ procC03 x = x
-        unfold tickStepperF; rw [h3]; simp only [h4]
-      show runF procC03 (stepF procC03 x .tick).1 (List.replicate n .tick) = x
-      rw [h1]; exact ih
-  rw [hstay n, h3] at hn
-  cases hn
+/-- **`fail()` on a WAITING process whose `on_exit_waiting` raises (finding F30, repaired by a130f23; the run that used to leave the
+stepping task blocked for ever)**: the failed transition is redone with the EXITING callbacks bypassed, but the state — still
+entered — is exited: `Waiting.exit()` completes the wait the stepping task is suspended on; the process is EXCEPTED with the fault,
+closed, its future raising it, and the next wake-up of the stepping task ends `step_until_terminated()`. -/
+theorem C03_failed_exit_hook_still_exits_the_state :
+    let x := runX procC03 (initX 0 [] (some ⟨.exitWaiting, 0, false⟩)) [.tick, .tick, .tick, .fail (.user 9)]
+    x.fired = true ∧ x.l.c.st = .excepted faultExc ∧ x.l.c.fut = .exc faultExc ∧ x.l.c.closed = true ∧
+    x.l.c.pc = .awaitWaiting 0 ∧ x.l.c.wfs[0]? = some (.result none) ∧ (runF procC03 x [.tick]).l.c.pc = .done := by
+  decide +kernel
 
 end FP
 end PMF
